@@ -399,9 +399,34 @@ def check_evaluate(ctx):
     a = [x.arg for x in f.args.args[1:]]
     txt = [util.stmt_key(s).replace(' ', '') for s in ast.walk(f) if isinstance(s, ast.stmt)]
     st, pa, tm = a[0], a[1], a[2]
-    need = ['sim.py_apply_repeated_rules(%s,%s,True)' % (st, tm), 'sim.py_calculate_deterministic_derivative(%s,derivative_array,%s)' % (st, tm),
-            'returnderivative_array', 'self.M.set_params(%s)' % pa, 'sim=self.sim_interface']
-    miss = [n for n in need if n not in txt]
+    # structural: on the interface of this model (self.sim_interface, possibly through a local), the rules at (states, time, True), the
+    # derivative at (states, <local buffer>, time), the buffer returned; the parameter set handed in goes through self.M.set_params
+    defs_ = util.single_defs(f)
+    kk = lambda n_: src(n_).replace(' ', '')
+
+    def on_iface(c_):
+        b_ = util.resolve_alias(c_.func.value, defs_)
+        return kk(b_) == 'self.sim_interface'
+    miss = []
+    rc_ = [c_ for c_ in ast.walk(f) if isinstance(c_, ast.Call) and isinstance(c_.func, ast.Attribute) and c_.func.attr == 'py_apply_repeated_rules']
+    dc_ = [c_ for c_ in ast.walk(f) if isinstance(c_, ast.Call) and isinstance(c_.func, ast.Attribute) and c_.func.attr == 'py_calculate_deterministic_derivative']
+    sp_ = [c_ for c_ in ast.walk(f) if isinstance(c_, ast.Call) and kk(c_.func) == 'self.M.set_params']
+    if len(rc_) != 1 or not on_iface(rc_[0]) or [kk(a_) for a_ in rc_[0].args] != [st, tm, 'True'] or rc_[0].keywords:
+        miss.append('the rules are not applied as <interface>.py_apply_repeated_rules(%s, %s, True): %s' % (st, tm, [src(c_) for c_ in rc_]))
+    buf = None
+    if len(dc_) != 1 or not on_iface(dc_[0]) or len(dc_[0].args) != 3 or dc_[0].keywords or [kk(dc_[0].args[0]), kk(dc_[0].args[2])] != [st, tm] \
+            or not isinstance(dc_[0].args[1], ast.Name):
+        miss.append('the derivative is not taken as <interface>.py_calculate_deterministic_derivative(%s, buffer, %s): %s' % (st, tm, [src(c_) for c_ in dc_]))
+    else:
+        buf = dc_[0].args[1].id
+        rets_ = [r_ for r_ in ast.walk(f) if isinstance(r_, ast.Return)]
+        if [kk(r_.value) if r_.value is not None else None for r_ in rets_] != [buf]:
+            miss.append('the value returned is not the derivative buffer %s' % buf)
+        bd_ = defs_.get(buf)
+        if bd_ is None or not (isinstance(bd_, ast.Call) and kk(bd_.func) in ('np.zeros', 'np.empty', 'numpy.zeros', 'numpy.empty')):
+            miss.append('the derivative buffer %s is not a fresh local array' % buf)
+    if len(sp_) != 1 or [kk(a_) for a_ in sp_[0].args] != [pa] or sp_[0].keywords:
+        miss.append('the parameter set handed in does not reach self.M.set_params(%s): %s' % (pa, [src(c_) for c_ in sp_]))
     # on every path: the parameter set that was handed in is in the model before the rules run (rules read parameters), and the rules
     # run before the derivative is taken
     order_ok = not miss
